@@ -54,6 +54,10 @@ _prev_sorted = LM.EXTERNALS["builtins.sorted"]
 def _sorted(ip, st, args, kwargs):
     xs = args[0]
     if isinstance(xs, Opaque) and xs.tag == "pubkeys.keys":
+        if kwargs or len(args) > 1:
+            # A-SORT describes sorted(keys) only - the paths in ascending order as strings.  With key= / reverse= the
+            # order is another one, about which this model knows nothing (seed C08-3: key=lambda p: p.split("/"))
+            raise Unsupported("sorted(public-key paths) with key= / reverse= is not modelled")
         yield st, paths_of(st, xs.attrs["m"])
         return
     yield from _prev_sorted(ip, st, args, kwargs)
